@@ -21,7 +21,7 @@ EXPLANATION = (
     ' (C12.3) error classes are constructed as written and rebuilt as cls(*instance.args); (C12.6) the pickling hooks of every persisted class: taking the state leaves the instance unchanged and a fresh instance gets every field back.'
     ' (C12.1/.2/.4) run over a file system in memory (what the file holds decides, not which opener was named); (C12.7) file histories: a name written by larger and smaller models, plain and compressed, constants of every type, overwritten through every public route between two persists - what is restored is what was persisted last.')
 NOT_DECIDED = 'deep equality of arbitrary models, float/Unicode fidelity (jsonpickle/json behaviour)'
-TRUSTED = ['jsonpickle reconstruction contract: __new__(cls, *__getnewargs__()) for objects, cls(*args) for exceptions']
+TRUSTED = ['a file system in memory with the documented semantics of builtin open / os.open / os.fdopen / os.replace / gzip.GzipFile (truncation, creation, append, positions; gzip members produced and read by the standard library on those bytes)', 'jsonpickle.encode / decode as a registry of documents: as long as the object is large, decoded only from exactly one well-formed JSON text', 'jsonpickle reconstruction contract: __new__(cls, *__getnewargs__()) for objects, cls(*args) for exceptions']
 
 MAPS = {'cells', 'defined_names', 'formulae', 'ranges'}
 
